@@ -17,8 +17,13 @@ EXTENDS Integers, Sequences, FiniteSets, TLC, Json
 CONSTANTS Graphs,    \* sequence of task graphs [prog |-> [Task -> Seq(<<op, arg>>)], main |-> Seq(<<op, arg>>)]
                      \*   task ops: "spawn" t | "await" t (a task resolves at its end); main ops: "spawn" t | "awaitsync" t
           Configs,   \* set of <<number of worker threads, capacity of the task queue>>
-          Blocking   \* TRUE: a send into a full queue blocks its thread (the pinned code);
+          Blocking,  \* TRUE: a send into a full queue blocks its thread (the pinned code);
                      \* FALSE: it is handed to a helper goroutine that sends later (the repaired code)
+          EarlyUnlock \* FALSE: the code's protocol (AWAIT keeps promise.m locked from the pending check
+                     \* until the continuation is registered). TRUE: negative control, the refactoring
+                     \* "do not hold a mutex across the return from the interpreter loop": the lock is
+                     \* released at the suspension and taken again to register -- check-then-act, TLC must
+                     \* find the lost wake-up (NoLostWakeup / RegisteredOnlyUnresolved, then a deadlock)
 
 VARIABLES gi, NW, QCap   \* the instance, chosen in Init and constant afterwards
 
@@ -166,18 +171,21 @@ AwaitFast(w) ==   \* already resolved: read the result, unlock, continue
      /\ Log(w, "await.fast", p)
 
 AwaitSuspend(w) ==   \* not resolved: leave the interpreter loop (still holding the lock)
-  /\ UNCHANGED inst /\ UNCHANGED <<queue, overflow, resolved, settled, lock, conts, cur, wi, tpc, mpc, spawned, taken>>
+  /\ UNCHANGED inst /\ UNCHANGED <<queue, overflow, resolved, settled, conts, cur, wi, tpc, mpc, spawned, taken>>
   /\ pc[w] = "await.lock.ok"
   /\ LET t == cur[w] p == Op(t)[2] IN
      /\ ~resolved[p]
+     /\ lock' = IF EarlyUnlock THEN [lock EXCEPT ![p] = -1] ELSE lock
      /\ waits' = [waits EXCEPT ![t] = @ + 1]
      /\ pc' = [pc EXCEPT ![w] = "await.suspended"]
      /\ Log(w, "await.suspended", p)
 
 AwaitRegister(w) ==   \* save the stack, RegisterContinuationUnsafe
-  /\ UNCHANGED inst /\ UNCHANGED <<queue, overflow, resolved, settled, lock, cur, wi, tpc, mpc, spawned, taken, waits>>
+  /\ UNCHANGED inst /\ UNCHANGED <<queue, overflow, resolved, settled, cur, wi, tpc, mpc, spawned, taken, waits>>
   /\ pc[w] = "await.suspended"
   /\ LET t == cur[w] p == Op(t)[2] IN
+     /\ EarlyUnlock => lock[p] = -1
+     /\ lock' = IF EarlyUnlock THEN [lock EXCEPT ![p] = w] ELSE lock
      /\ conts' = [conts EXCEPT ![p] = Append(@, t)]
      /\ pc' = [pc EXCEPT ![w] = "await.registered"]
      /\ Log(w, "await.registered", p)
